@@ -706,10 +706,47 @@ class GuardedCalls(object):
     'vpbt') leaves every ndarray argument unchanged (see ArgGuard).  Calls
     the library makes internally are not touched.  targets: iterable of
     (owner, attribute name) with owner a module or a class."""
-    def __init__(self, targets, tags=None):
+    KEEP_RESULTS = 12
+
+    def __init__(self, targets, tags=None, watch_results=True):
         self.targets = list(targets)
         self.tags = dict(tags or {})
         self.saved = []
+        # arrays handed OUT by earlier guarded calls: a later library call
+        # must not change them (a method that returns a view of a buffer it
+        # re-uses overwrites the result its caller still holds)
+        self.watch_results = watch_results
+        self.results = []
+
+    def _verify_results(self, where):
+        import numpy as np
+        for label, arr, saved in self.results:
+            same = arr.shape == saved.shape and (
+                np.array_equal(arr, saved) or
+                (arr.dtype.kind in "fc" and
+                 np.array_equal(np.isnan(arr), np.isnan(saved)) and
+                 np.array_equal(np.nan_to_num(arr), np.nan_to_num(saved))))
+            if not same:
+                self.results = []
+                raise Violation(
+                    "earlier_result_modified", "an array returned earlier by "
+                    "%s was changed by the later call %s" % (label, where),
+                    dict(self.tags, returned_by=label, changed_by=where))
+
+    def _register_results(self, label, out, argarrays, depth=0):
+        import numpy as np
+        if isinstance(out, np.ndarray):
+            if out.dtype == object:
+                for a in out.reshape(-1):
+                    self._register_results(label, a, argarrays, depth + 1)
+            elif out.size and not any(np.may_share_memory(out, a)
+                                      for a in argarrays):
+                self.results.append((label, out, out.copy()))
+        elif isinstance(out, (list, tuple)) and depth < 3:
+            for a in out:
+                self._register_results(label, a, argarrays, depth + 1)
+        if depth == 0 and len(self.results) > self.KEEP_RESULTS:
+            del self.results[:len(self.results) - self.KEEP_RESULTS]
 
     def _wrap(self, fn, label):
         tags = self.tags
@@ -725,6 +762,10 @@ class GuardedCalls(object):
                 g.watch("argument %s" % k, a)
             out = fn(*args, **kwargs)
             g.verify(label)
+            if self.watch_results:
+                self._verify_results(label)
+                self._register_results(label, out,
+                                       [it[1] for it in g.items])
             return out
         wrapper.__name__ = getattr(fn, "__name__", "wrapped")
         wrapper.__doc__ = getattr(fn, "__doc__", None)
